@@ -591,6 +591,11 @@ func hasEffects(fn *ssa.Function) bool {
 
 // c13Counts checks the shape of the count/size reject conditions.
 func c13Counts(p *Prog, r *Report) {
+	for _, f := range p.FuncsIn("arg") {
+		for _, cs := range callsTo(f, "(reflect.Value).Convert") {
+			r.Bad("C13.R5", "mismatched value coerced in "+shortName(f), p.Pos(posOf(cs)), "a value whose type differs from the declared one is converted with reflect's Convert instead of being rejected with the typed cause: the configuration mistake is accepted and the target is patched")
+		}
+	}
 	// the validation functions decide from their arguments alone: a verdict remembered under a key that is coarser than
 	// the types compared would let a later, ill-fitting configuration through
 	var vroots []*ssa.Function
